@@ -46,8 +46,9 @@ CIVIL = dict(month="SolarMonth", day="SolarDay", week="SolarWeek", mget=("SolarM
 LUNAR = dict(month="LunarMonth", day="LunarDay", week="LunarWeek", mget=("LunarMonth::get_year", "LunarMonth::get_month_with_leap"), src="src/tyme/lunar.rs", lens=(29, 30))
 
 
-def setup(eng, K, method, nargs=None):
-    fn = M.find_fn(eng.fns, method, "&" + K["week"], nargs)
+def setup(eng, K, method, nargs=None, first_arg=None, fn=None):
+    if fn is None:
+        fn = M.find_fn(eng.fns, method, first_arg or ("&" + K["week"]), nargs)
     inline = {K["month"] + "::get_week_count": ("get_week_count", "&" + K["month"], None),
               K["week"] + "::get_year": ("get_year", "&" + K["week"], None), K["week"] + "::get_month": ("get_month", "&" + K["week"], None)}
     ctx = _ctx(eng, inline)
@@ -106,6 +107,9 @@ def setup(eng, K, method, nargs=None):
             if callee == K["month"] + "::get_first_julian_day":
                 from .objmodel import JD
                 return True, JD(F[o])
+        if callee == K["month"] + "::from_ym" and len(a) == 2 and all(isinstance(x, T) for x in a) and getattr(ctx, "new_month_args", None) is not None:
+            ctx.new_month_args.append(a)
+            return True, MonV(0)
         if callee == K["day"] + "::from_ymd" and len(a) == 3 and isinstance(a[0], Tagged) and isinstance(a[1], Tagged) and a[0].mon == a[1].mon and isinstance(a[2], T) and a[2].c == 1:
             return True, FirstDay(a[0].mon)
         if callee == K["day"] + "::get_week" and isinstance(a[0], FirstDay):
@@ -303,4 +307,84 @@ def k_week_index_in_year(eng):
 
     r = run_kernel(eng, "14.d/B/week-index-in-year", "14.d", "every year start and length (355..366), every month inside the year (21..31 days), every start weekday, every valid index; search loop unrolled 55 times with the bound proved",
                    build, None, replay)
+    return _finish(r, holder["ctx"]) if "ctx" in holder else r
+
+
+def _new_scan(lunar):
+    def replay(eng, model):
+        nat = eng.native("week_new_scan", 1 if lunar else 0)
+        if nat in ("NONE", "PANIC", "UNKNOWN", ""):
+            return nat == "PANIC", "native scan: " + (nat or "no output")
+        return True, "week count / acceptance: " + nat
+    return replay
+
+
+def k_week_count(eng, lunar):
+    """get_week_count(start) = the number of weeks (starting on `start`) needed to cover the month: ceil((offset of the 1st + length) / 7)"""
+    K = LUNAR if lunar else CIVIL
+    holder = {}
+
+    def build(eng):
+        fn, ctx, rec, idx0, start, F, pre = setup(eng, K, "get_week_count", 2, "&" + K["month"])
+        holder.update(ctx=ctx)
+        paths = ctx.run(fn, [("refrec", MonV(0)), start])
+
+        def shape(p):
+            return None if isinstance(p.ret, T) else "result is not a number"
+        return ctx, paths, pre, (lambda p: [("count", "(= %s %s)" % (p.ret.s, count_of(F, 0, start)))]), shape
+    kid = "14.j/B/%s-week-count" % ("lunar" if lunar else "civil")
+    r = run_kernel(eng, kid, "14.j", "every month start and length (%d..%d days), every start weekday" % K["lens"], build, None, _new_scan(lunar))
+    return _finish(r, holder["ctx"]) if "ctx" in holder else r
+
+
+def k_week_new(eng, lunar):
+    """Week::new(year, month, index, start) is accepted exactly when start <= 6 and index < week count of that very month"""
+    K = LUNAR if lunar else CIVIL
+    holder = {}
+
+    def build(eng):
+        cands = [f for name, fl in eng.fns.items() for f in fl if name.endswith("::new") and len(f.args) == 4 and ("<" + K["week"] + ",") in f.ret.replace("tyme::solar::", "").replace("tyme::lunar::", "")]
+        if len(cands) != 1:
+            raise Unsupported("%s::new found %d times" % (K["week"], len(cands)))
+        fn, ctx, rec, idx0, start, F, pre = setup(eng, K, "new", 4, None, fn=cands[0])
+        holder.update(ctx=ctx)
+        ctx.new_month_args = []
+        year = ctx.fresh_value("year", "isize")
+        month = ctx.fresh_value("month", fn.args[1][1])
+        index = ctx.fresh_value("index", "usize")
+        st = ctx.fresh_value("start_arg", "usize")
+        paths = ctx.run(fn, [year, month, index, st])
+        pre2 = [x for x in pre if start.s not in x] + ["(<= 0 %s 40)" % index.s, "(<= 0 %s 40)" % st.s, "(<= 1 %s 9999)" % year.s, "(<= (- 12) %s 12)" % month.s]
+        off = "(mod (- (mod (+ %s 1) 7) %s) 7)" % (F[0].s, st.s)
+        cnt = "(div (+ %s (- %s %s) 6) 7)" % (off, F[1].s, F[0].s)
+        okc = "(and (<= %s 6) (< %s %s))" % (st.s, index.s, cnt)
+
+        def shape(p):
+            if not isinstance(p.ret, Variant) or p.ret.name not in ("Ok", "Err"):
+                return "result is not Ok/Err"
+            if p.ret.name == "Ok":
+                if len(ctx.new_month_args) == 0:
+                    return "accepted without looking the month up"
+                if any(not (a[0].s == year.s and a[1].s == month.s) for a in ctx.new_month_args):
+                    return "a month other than (year, month) is looked up"
+                v = p.ret.value
+                named = getattr(v, "named", None)
+                if not named or not isinstance(named.get("month"), MonV) or named["month"].off != 0:
+                    return "the stored month is not the month looked up"
+            return None
+
+        def posts(p):
+            if p.ret.name == "Err":
+                return [("refused-only-when-invalid", "(not %s)" % okc)]
+            named = p.ret.value.named
+            out = [("accepted-only-when-valid", okc), ("stores-index", "(= %s %s)" % (named["index"].s, index.s))]
+            stv = named.get("start")
+            if isinstance(stv, Obj):
+                out.append(("stores-start", "(= %s %s)" % (stv.idx.s, st.s)))
+            else:
+                out.append(("stores-start", "false"))
+            return out
+        return ctx, paths, pre2, posts, shape
+    kid = "14.k/B/%s-week-new" % ("lunar" if lunar else "civil")
+    r = run_kernel(eng, kid, "14.k", "every month start and length (%d..%d days), index and start 0..40" % K["lens"], build, None, _new_scan(lunar))
     return _finish(r, holder["ctx"]) if "ctx" in holder else r
